@@ -155,16 +155,54 @@ func startEnv(e *WEnv) error {
 	if err := e.wm.VerifStartHandlerOnly(); err != nil {
 		return err
 	}
+	// wait for the re-queued background work; give up when nothing moves any more (an import that
+	// cannot proceed until the next tip notification re-queues itself in a tight loop)
 	deadline := time.Now().Add(8 * time.Second)
+	last, lastChange := e.Wallets(), time.Now()
 	for busyWallets(e) && time.Now().Before(deadline) {
-		time.Sleep(200 * time.Microsecond)
+		time.Sleep(300 * time.Microsecond)
+		if cur := e.Wallets(); cur != last {
+			last, lastChange = cur, time.Now()
+		} else if time.Since(lastChange) > 150*time.Millisecond {
+			break
+		}
 	}
 	e.wm.VerifStopGoroutines()
 	e.wm.VerifDrainTasks()
-	if busyWallets(e) {
-		return fmt.Errorf("background work did not finish")
-	}
 	return nil
+}
+
+// settle drives unfinished background work of a replay (what the worker goroutine does in the
+// running system) until no wallet is importing / being removed, so that its state can be compared
+// with a quiet state of the uninterrupted run.
+func settle(e *WEnv) {
+	for round := 0; round < 64 && busyWallets(e); round++ {
+		progress := false
+		for _, it := range strings.Split(e.Wallets(), ",") {
+			i := strings.LastIndex(it, ":")
+			if i < 0 {
+				continue
+			}
+			name, st := it[:i], it[i+1:]
+			id, ok := e.wallets[name]
+			if !ok {
+				continue
+			}
+			switch {
+			case strings.HasPrefix(st, "importing"):
+				if _, err := e.wm.VerifImportStep(id); err == nil {
+					progress = true
+				}
+			case st == "removing":
+				if err := e.wm.VerifRemoveRun(id); err == nil {
+					progress = true
+				}
+			}
+		}
+		if !progress {
+			return
+		}
+	}
 }
 
 func bootEnv(e *WEnv) error {
@@ -188,6 +226,8 @@ func walletStatusOf(e *WEnv, w string) string {
 // persistOp executes one op of the crash / fault engines on environment e.
 func persistOp(e *WEnv, a []string) string {
 	switch {
+	case a[0] == "rec" && len(a) > 1:
+		return persistOp(e, a[1:])
 	case a[0] == "boot" && len(a) == 1:
 		return errTok(bootEnv(e))
 	case a[0] == "remove" && len(a) == 2:
@@ -205,7 +245,7 @@ func persistOp(e *WEnv, a []string) string {
 			return "bad-op"
 		}
 		if walletStatusOf(e, a[1]) != "removing" {
-			return "noop"
+			return "ok" // nothing to do (not in that state any more)
 		}
 		return errTok(e.wm.VerifRemoveRun(id))
 	case a[0] == "mkimport" && len(a) == 3:
@@ -222,7 +262,7 @@ func persistOp(e *WEnv, a []string) string {
 			return "bad-op"
 		}
 		if !strings.HasPrefix(walletStatusOf(e, a[1]), "importing") {
-			return "noop"
+			return "ok" // nothing to do (not in that state any more)
 		}
 		_, err := e.wm.VerifImportStep(id)
 		return errTok(err)
@@ -457,6 +497,9 @@ func (x *crashExec) Close() {
 }
 
 func isObservation(a []string) bool {
+	if a[0] == "rec" && len(a) > 1 {
+		return isObservation(a[1:])
+	}
 	switch a[0] {
 	case "synced", "bal", "abal", "utxos", "sbu", "pend", "addrs", "shist", "bhist", "hsbu", "shistp", "bhistp", "wallets":
 		return true
@@ -494,12 +537,18 @@ func (x *crashExec) Exec(a []string) string {
 	x.hist = append(x.hist, a)
 	x.outs = append(x.outs, out)
 	x.cmp = append(x.cmp, isObservation(a) && caughtUp(e))
+	if a[0] == "rec" {
+		return "ok" // recorded for the crash comparison only (histories the ledger model does not cover)
+	}
 	return out
 }
 
 // crashAll: every fork of the twin is a crash point.
 func (x *crashExec) crashAll(depth, mod int) string {
 	if x.rec.err != nil {
+		if verifDebug {
+			fmt.Fprintln(os.Stderr, "  [fork error]", x.rec.err)
+		}
 		return "fork-error"
 	}
 	for _, f := range x.rec.forks {
@@ -545,12 +594,19 @@ func (x *crashExec) replay(f *forkRec, level, depth, mod int) string {
 			rec.inBoot = false
 			rec.opDone()
 		}
+		if x.cmp[j] && out != x.outs[j] && busyWallets(r) {
+			settle(r)
+			out = persistOp(r, a)
+		}
 		if x.cmp[j] && out != x.outs[j] {
 			return fmt.Sprintf("k=%d op=%d level=%d at=%d:%s twin=%s crash=%s", f.k, f.op, level, j, strings.Join(a, "_"), x.outs[j], out)
 		}
 	}
 	if rec != nil {
 		if rec.err != nil {
+			if verifDebug {
+				fmt.Fprintln(os.Stderr, "  [fork error]", rec.err)
+			}
 			return "fork-error"
 		}
 		for i, f2 := range rec.forks {
